@@ -52,7 +52,7 @@ Shape(n) ==
   CASE n.t = "leaf" -> [t |-> "leaf", v |-> n.v]
     [] n.t = "nil"  -> [t |-> "nil"]
     [] n.t = "stk"  -> [t |-> "stk", k |-> n.k, paren |-> n.paren, e |-> [i \in 1..Len(n.e) |-> Shape(n.e[i])]]
-    [] n.t = "cnd"  -> [t |-> "cnd", kw |-> n.kw, op |-> n.op, ex |-> Shape(n.ex)]
+    [] n.t = "cnd"  -> [t |-> "cnd", kw |-> n.kw, op |-> n.op, paren |-> n.paren, ex |-> Shape(n.ex)]
 
 \* what every Stack and Condition node of a tree answers about its own size (preorder):
 \* Stack.Len / IsNesting / IsEmpty, Condition.Len / IsNesting.  A Condition holding a Stack
